@@ -313,26 +313,49 @@ def colour(ctx, res, rule):
         res.cannot(rule, fn, "colour-locals", "the selected colour strings are not bound by a tuple pattern", T.loc(sel))
         return
     ids = {p["id"]: p["name"] for p in bound}
-    nuse = 0
-    for n, par in T.walk(item["tree"]):
-        if n.get("k") != "path" or T.local_of(n) not in ids:
-            continue
-        nuse += 1
-        nm = ids[T.local_of(n)]
-        ctx_ok = False
-        # climb: push_str(arg) or .len() inside with_capacity(..)
-        chain = list(par)
-        p = chain[-1]
-        while p.get("k") in ("addr_of",) or (p.get("k") == "unary" and p.get("op") == "*"):
-            chain = chain[:-1]
+    nuse = [0]
+
+    def flows(body, ids, depth):
+        bfn = fshort(body)
+        for n, par in T.walk(body["tree"]):
+            if n.get("k") != "path" or T.local_of(n) not in ids:
+                continue
+            nuse[0] += 1
+            nm = ids[T.local_of(n)]
+            ctx_ok = False
+            # climb: push_str(arg), .len() inside with_capacity(..), a plain `{}` placeholder of format!, or an argument of a
+            # helper of this crate whose parameter is used in the same ways (followed to depth 3)
+            chain = list(par)
             p = chain[-1]
-        if p.get("k") == "mcall" and p["name"] == "push_str" and any(T.peel_ref(a) is n for a in p["args"]):
-            ctx_ok = True
-        elif p.get("k") == "mcall" and p["name"] == "len" and T.peel_ref(p["recv"]) is n:
-            if any(q.get("k") == "call" and (T.cname(q) or "").endswith("String::with_capacity") for q in chain):
+            while p.get("k") in ("addr_of",) or (p.get("k") == "unary" and p.get("op") == "*"):
+                chain = chain[:-1]
+                p = chain[-1]
+            fmt = [q for q in chain if q.get("k") == "call" and (T.cname(q) or "") in ("std::fmt::format", "alloc::fmt::format")]
+            if p.get("k") == "mcall" and p["name"] == "push_str" and any(T.peel_ref(a) is n for a in p["args"]):
                 ctx_ok = True
-        if ctx_ok:
-            res.holds(rule, fn, "colour-flow:%s:%s" % (nm, T.render(p)[:50]))
-        else:
-            res.add(Finding(rule, fn, "colour-flow:%s:%s" % (nm, T.render(p)[:50]), "colour string `%s` flows into `%s`: colouring may change more than the inserted escape codes" % (nm, T.render(p)[:100]), loc=T.loc(n)))
+            elif p.get("k") == "mcall" and p["name"] == "len" and T.peel_ref(p["recv"]) is n:
+                if any(q.get("k") == "call" and (T.cname(q) or "").endswith("String::with_capacity") for q in chain):
+                    ctx_ok = True
+            elif fmt:
+                snip = fmt[-1].get("snip") or ""
+                m = re.match(r'^format!\(\s*"((?:[^"\\]|\\.)*)"', snip, re.S)
+                if m and all(re.match(r"^\{[A-Za-z_0-9]*\}$", ph) for ph in re.findall(r"\{[^{}]*\}", m.group(1).replace("{{", "").replace("}}", ""))):
+                    ctx_ok = True
+                    p = fmt[-1]
+            elif p.get("k") == "call" and depth < 3:
+                callee = P.bodies.get(T.callee(p) or "")
+                idx = [k for k, a in enumerate(p["args"]) if T.peel_ref(a) is n]
+                if callee is not None and len(idx) == 1 and callee["params"][idx[0]]["pat"]["p"] == "bind":
+                    cp = callee["params"][idx[0]]["pat"]
+                    flows(callee, {cp["id"]: "%s(as %s in %s)" % (nm.split("(")[0], cp["name"], fshort(callee))}, depth + 1)
+                    res.holds(rule, bfn, "colour-flow:%s:helper %s" % (nm, fshort(callee)))
+                    continue
+            site = "colour-flow:%s:%s" % (nm, (p.get("snip") or T.render(p))[:50])
+            if ctx_ok:
+                res.holds(rule, bfn, site)
+            else:
+                res.add(Finding(rule, bfn, site, "colour string `%s` flows into `%s`: colouring may change more than the inserted escape codes" % (nm, T.render(p)[:100]), loc=T.loc(n)))
+
+    flows(item, ids, 0)
+    nuse = nuse[0]
     res.floor(rule, "uses of the colour strings", nuse, 8)
